@@ -29,6 +29,7 @@ import (
 	"time"
 	"unicode/utf8"
 
+	runewidth "github.com/mattn/go-runewidth"
 	"golang.org/x/term"
 	"golang.org/x/text/transform"
 
@@ -700,7 +701,10 @@ func (t *tScreen) SetStyle(style Style) {
 	t.Unlock()
 }
 
-func (t *tScreen) encodeRune(r rune, buf []byte) []byte {
+// encodeRune appends the encoding of r to buf.  If r cannot be represented in
+// the terminal's character set and a substitute was written instead, the number
+// of columns the substitute occupies is returned (0 otherwise).
+func (t *tScreen) encodeRune(r rune, buf []byte) ([]byte, int) {
 
 	nb := make([]byte, 6)
 	ob := make([]byte, 6)
@@ -714,20 +718,21 @@ func (t *tScreen) encodeRune(r rune, buf []byte) []byte {
 	}
 	if err != nil || dst == 0 || nb[0] == '\x1a' {
 		// Combining characters are elided
+		sub := 0
 		if len(buf) == 0 {
+			sub = 1
 			if acs, ok := t.acs[r]; ok {
 				buf = append(buf, []byte(acs)...)
 			} else if fb, ok := t.fallback[r]; ok {
 				buf = append(buf, []byte(fb)...)
+				sub = runewidth.StringWidth(fb)
 			} else {
 				buf = append(buf, '?')
 			}
 		}
-	} else {
-		buf = append(buf, nb[:dst]...)
+		return buf, sub
 	}
-
-	return buf
+	return append(buf, nb[:dst]...), 0
 }
 
 func (t *tScreen) sendFgBg(fg Color, bg Color, attr AttrMask) AttrMask {
@@ -943,15 +948,16 @@ func (t *tScreen) drawCell(x, y int) int {
 
 	buf := make([]byte, 0, 6)
 
-	buf = t.encodeRune(mainc, buf)
+	buf, sub := t.encodeRune(mainc, buf)
 	for _, r := range combc {
-		buf = t.encodeRune(r, buf)
+		buf, _ = t.encodeRune(r, buf)
 	}
 
 	str = string(buf)
-	if width > 1 && str == "?" {
-		// No FullWidth character support
-		str = "? "
+	if sub > 0 && sub < width {
+		// No FullWidth character support: the substitute ("?", or a
+		// registered fallback) is narrower than the character, pad it
+		str += strings.Repeat(" ", width-sub)
 		t.cx = -1
 	}
 
